@@ -1120,7 +1120,7 @@ LEGS = [
              "through the simulators, recorded key through library + "
              "simulator."),
     Leg("felica_auth", run=run_felica_auth, gen=lambda tier: gen_felica_auth(),
-        quick=1200, thorough=32000, shards_quick=6, shards_thorough=16,
+        quick=1200, thorough=24000, shards_quick=6, shards_thorough=16,
         nt_floor=0.25,
         rule="FeliCa Lite / Lite-S holding a random (or factory / "
              "K1=K2) card key; 1-3 passwords in sequence on one tag object: "
@@ -1141,7 +1141,7 @@ LEGS = [
              "(thorough) seeded configurations; non-trivial = flip inside the "
              "data/MAC/WCNT bytes or wrong password."),
     Leg("auth_tamper", run=run_auth_tampered,
-        gen=lambda tier: gen_auth_tamper(), quick=1000, thorough=30000,
+        gen=lambda tier: gen_auth_tamper(), quick=1000, thorough=24000,
         shards_quick=4, shards_thorough=16, nt_floor=0.25,
         rule="1-2 response frames of the authentication changed by 1-4 "
              "xor/set/bit/copy/truncate/append operations or replaced by the "
@@ -1153,7 +1153,7 @@ LEGS = [
              "1, 2 and 3 blocks, both products, 1 (quick) / 12 (thorough) "
              "seeded configurations; non-trivial = flip inside data or MAC."),
     Leg("read_mac", run=run_read, gen=lambda tier: gen_read(),
-        quick=2000, thorough=60000, shards_quick=4, shards_thorough=16,
+        quick=2000, thorough=48000, shards_quick=4, shards_thorough=16,
         nt_floor=0.25,
         rule="read_with_mac of 1-4 blocks out of 0..14, 80h, 82h..88h, "
              "(90h, 92h), occasionally illegal numbers, genuine or with 1-4 "
@@ -1169,7 +1169,7 @@ LEGS = [
              "non-trivial = protect succeeded and the other password differs "
              "in a non-parity bit."),
     Leg("ntag_auth", run=run_ntag_auth, gen=lambda tier: gen_ntag_auth(),
-        quick=3000, thorough=100000, shards_quick=2, shards_thorough=8,
+        quick=3000, thorough=60000, shards_quick=2, shards_thorough=8,
         nt_floor=0.3,
         rule="NTAG210..216 with random / factory PWD and PACK, NAK delivered "
              "as byte or silence; passwords: right, right+tail, single bit "
@@ -1185,12 +1185,12 @@ LEGS = [
              "PWD off; the result must equal the documented comparison of "
              "the received bytes with password[4:6]."),
     Leg("ntag_tamper", run=run_ntag_tamper, gen=lambda tier: gen_ntag_tamper(),
-        quick=2000, thorough=60000, shards_quick=2, shards_thorough=8,
+        quick=2000, thorough=40000, shards_quick=2, shards_thorough=8,
         nt_floor=0.3,
         rule="PWD_AUTH answer replaced / truncated / extended / bit-changed; "
              "non-trivial = the frame really changed."),
     Leg("ntag_protect", run=run_ntag_protect,
-        gen=lambda tier: gen_ntag_protect(), quick=800, thorough=30000,
+        gen=lambda tier: gen_ntag_protect(), quick=800, thorough=20000,
         shards_quick=1, shards_thorough=8, nt_floor=0.2,
         rule="protect(password, read_protect, protect_from) on a factory or "
              "already protected (authenticate(old) first) NTAG21x, formatted "
